@@ -370,7 +370,8 @@ pub fn main(args: &Args) {
                 }
                 local.out_bytes += base.stdout.len() as u64 + base.files.iter().map(|f| f.1.len() as u64).sum::<u64>();
                 let nontrivial = !base.stdout.is_empty() || !base.files.is_empty();
-                if base.code == Some(0) && cmd.stdin_file.is_none() && !base.timed_out {
+                // (commands that start provers are left out of the in-process histories: there the prover is the simulator's)
+                if base.code == Some(0) && cmd.stdin_file.is_none() && !base.timed_out && cmd.kind != "verify-search" {
                     local.base_digests.push((ci, obs_digest(&base.stdout, &base.files)));
                 }
                 if base.timed_out {
